@@ -45,7 +45,7 @@ def app_cfg(c, seed):
             "fracDen": 4, "gov": True}
 
 
-SIZES = {"quick": dict(num=60, depth=8, onein=40, simt=60, mct=900, maxbeh=1500, mctx=2),
+SIZES = {"quick": dict(num=60, depth=8, onein=40, simt=120, mct=900, maxbeh=1500, mctx=2),
          "thorough": dict(num=600, depth=9, onein=40, simt=300, mct=2400, maxbeh=12000, mctx=3)}
 
 
